@@ -169,3 +169,5 @@ func tArr(t Task, k string) []interface{} {
 	l, _ := t[k].([]interface{})
 	return l
 }
+
+func nowNanos() int64 { return time.Now().UnixNano() }
